@@ -162,7 +162,7 @@ fn main() {
 // Leak probes: one construct per family, executed once per iteration around
 // tick(); the signature of a leak names the construct.
 func leakFamily(name, helpers, body string) c09Family {
-	return c09Family{name: "leak-" + name, leak: true, gen: func(d int) string {
+	return c09Family{name: "leak-" + name, leak: true, interp: true, depthOf: func(int) int { return 6 }, gen: func(d int) string {
 		return fmt.Sprintf("%s\nfn main() { let y = 0; for i in 0..%d { %s tick(); } println(\"y\", y); }", helpers, d, body)
 	}}
 }
@@ -222,6 +222,7 @@ type c09Run struct {
 	peak      c09Sample // measured on the entry core (reference runs)
 	peakAll   c09Sample // max over all cores
 	ticks     []c09Sample
+	tickSteps []int64 // total steps executed at each tick (both backends): the cost of one iteration must not grow
 	treeOut   outcome
 	afterStop bool
 	unobservable bool // the core's resource fields could not be read (renamed?): peaks unknown
@@ -263,6 +264,9 @@ func c09Exec(t *testing.T, spec RunSpec, src string, backend int, limits runtime
 			env := &vmEnv{prog: prog, out: out, ctx: ctx, exec: NewVMExec(out), limits: limits}
 			var entry *runtime.Core
 			env.tick = func() {
+				if sim := simrt.Active(); sim != nil {
+					rr.tickSteps = append(rr.tickSteps, sim.CurSteps())
+				}
 				if call, st, mem, hs, ok := coreLevels(entry); ok {
 					rr.ticks = append(rr.ticks, c09Sample{call, st, mem, hs})
 				}
@@ -281,6 +285,9 @@ func c09Exec(t *testing.T, spec RunSpec, src string, backend int, limits runtime
 			ctxp, _ := ctx.AsContext()
 			adds := hms.TestingInterpreterScopeAdditions()
 			adds["tick"] = *ivalue.NewValueBuiltinFunction(func(executor ivalue.Executor, cancelCtx *context.Context, span herrors.Span, args ...ivalue.Value) (*ivalue.Value, *ivalue.Interrupt) {
+				if sim := simrt.Active(); sim != nil {
+					rr.tickSteps = append(rr.tickSteps, sim.CurSteps())
+				}
 				return ivalue.NewValueNull(), nil
 			})
 			i := hms.Run(treeLimit, prog.an.Modules, "main", TreeExec{Out: out}, adds, ctxp)
@@ -515,6 +522,19 @@ func runC09(t *testing.T, spec RunSpec) *Verdict {
 				v.fail(P, "wrong-result", "limit-error-not-catchable", cell+":"+kindName, fmt.Sprintf("the program continued with %q after exceeding the %s limit", l, kindName))
 				return v
 			}
+		}
+	}
+	// leak freedom, seen from outside: the work done per iteration does not grow (frames, scopes or
+	// handlers that are not returned make every later iteration more expensive)
+	if f.leak && rr.out.Kind == "completed" && len(rr.tickSteps) >= 16 {
+		n := len(rr.tickSteps)
+		q := n / 4
+		first := float64(rr.tickSteps[q]-rr.tickSteps[0]) / float64(q)
+		last := float64(rr.tickSteps[n-1]-rr.tickSteps[n-1-q]) / float64(q)
+		res.Probes["iteration-cost-samples"] += n
+		if last > 1.5*first+40 {
+			v.fail(P, "wrong-result", "iteration-cost-constant", cell, fmt.Sprintf("the cost of one iteration grows: %.0f steps per iteration in the first quarter of the run, %.0f in the last (%d iterations)", first, last, n))
+			return v
 		}
 	}
 	// leak freedom: resource levels sampled once per iteration are constant
